@@ -10,6 +10,7 @@ import (
 
 	"github.com/polynetwork/poly/common"
 	cstates "github.com/polynetwork/poly/core/states"
+	scom "github.com/polynetwork/poly/core/store/common"
 	"github.com/polynetwork/poly/native/service/cross_chain_manager/consensus_vote"
 	"github.com/polynetwork/poly/native/service/governance/neo3_state_manager"
 	"github.com/polynetwork/poly/native/service/governance/node_manager"
@@ -17,7 +18,6 @@ import (
 	"github.com/polynetwork/poly/native/service/governance/side_chain_manager"
 	"github.com/polynetwork/poly/native/service/governance/signature_manager"
 	"github.com/polynetwork/poly/native/service/utils"
-	"github.com/polynetwork/poly/native/storage"
 )
 
 // poolItem is one stored pool entry, decoded from the raw stored bytes (not through the map, so that duplicates
@@ -60,8 +60,9 @@ type snapshot struct {
 }
 
 func rawItems(w *world, contract common.Address) [][2][]byte {
-	cache := storage.NewCacheDB(w.overlay)
-	it := cache.NewIterator(contract[:])
+	// committed state lives in the overlay; CacheDB prefixes storage keys with ST_STORAGE
+	prefix := append([]byte{byte(scom.ST_STORAGE)}, contract[:]...)
+	it := w.overlay.NewIterator(prefix)
 	defer it.Release()
 	var res [][2][]byte
 	for ok := it.First(); ok; ok = it.Next() {
@@ -74,7 +75,7 @@ func rawItems(w *world, contract common.Address) [][2][]byte {
 		if err != nil {
 			val = nil
 		}
-		res = append(res, [2][]byte{k[20:], val})
+		res = append(res, [2][]byte{k[21:], val})
 	}
 	return res
 }
@@ -135,7 +136,9 @@ func (w *world) snap() *snapshot {
 		rlapply: map[string]string{}, rlrm: map[string]string{}, svapply: map[string]string{}, svrm: map[string]string{},
 		sig: map[string]string{}, vote: map[string]string{}, cand: "-", cfg: "-", rlaid: "-", rlrid: "-", sv: "-", svaid: "-", svrid: "-",
 		scOwner: map[uint64]common.Address{}, blackSet: map[string]bool{}}
-	unk := func(c byte, k []byte) { s.unknown = append(s.unknown, fmt.Sprintf("%02x/%s", c, hex.EncodeToString(k))) }
+	unk := func(c byte, k []byte) {
+		s.unknown = append(s.unknown, fmt.Sprintf("%02x/%s", c, hex.EncodeToString(k)))
+	}
 	// node manager
 	for _, kv := range rawItems(w, utils.NodeManagerContractAddress) {
 		k, v := kv[0], kv[1]
